@@ -174,7 +174,7 @@ def helper_main():
     worker_init()
     for line in sys.stdin:
         msg = json.loads(line)
-        res = answers(msg['case'], msg['requests'], msg['idseeds'], repeat=False)
+        res = answers(msg['case'], msg['requests'], msg['idseeds'], repeat=bool(msg.get('repeat')))
         sys.stdout.write(json.dumps(res) + '\n')
         sys.stdout.flush()
 
@@ -191,9 +191,9 @@ def helper(hashseed):
     return h
 
 
-def ask_helper(hashseed, case, requests, idseeds):
+def ask_helper(hashseed, case, requests, idseeds, repeat=False):
     h = helper(hashseed)
-    h.stdin.write(json.dumps({'case': case, 'requests': requests, 'idseeds': idseeds}) + '\n')
+    h.stdin.write(json.dumps({'case': case, 'requests': requests, 'idseeds': idseeds, 'repeat': repeat}) + '\n')
     h.stdin.flush()
     line = h.stdout.readline()
     if not line:
@@ -336,14 +336,22 @@ def check_case(case, idseeds, hashseeds, stats=None):
     reqs = requests_of(case)
     if case['kind'] == 'flow' and not case.get('all_reads'):
         # first pass under one seed: keep the reads whose answer has alternatives (plus lint)
-        probe = answers(case, reqs, idseeds[:1], repeat=False)[str(idseeds[0])]['first']
+        if os.environ.get('PYTHONHASHSEED') == '0':
+            probe = answers(case, reqs, idseeds[:1], repeat=False)[str(idseeds[0])]['first']
+        else:
+            probe = ask_helper(0, case, reqs, idseeds[:1])[str(idseeds[0])]['first']
         keep = [q for q, a in zip(reqs, probe) if q['kind'] != 'location' or has_alternatives(a) or q.get('multi')]
         if stats is not None:
             stats['evals'] += len(reqs)
         reqs = keep[:14]
     if not reqs:
         return vios
-    local = answers(case, reqs, idseeds, repeat=True)
+    if os.environ.get('PYTHONHASHSEED') == '0':
+        local = answers(case, reqs, idseeds, repeat=True)
+    else:
+        # (replay confirmation runs under another hash seed on purpose) the reference side of every comparison
+        # is an interpreter with PYTHONHASHSEED=0, as in the run that found the violation
+        local = ask_helper(0, case, reqs, idseeds, repeat=True)
     if stats is not None:
         stats['evals'] += len(reqs) * (len(idseeds) + 2 * min(2, len(idseeds)))
     base = local[str(idseeds[0])]['first']
